@@ -250,6 +250,14 @@ pub fn judge_data(c: &DataCase, out: ChildOut) -> Judged {
     }
     let sim = to_sim(c);
     let topics = sim.topics.clone();
+    // the fenced multi-node shape rests on the first segment leader being the metadata leader
+    if c.nodes >= 2 && c.raft_leader != 0 {
+        let want = format!("CreateTopic {{ name: {:?}, initial_leader: {} }}", TOPICS[0], c.raft_leader);
+        if !r.log.iter().any(|l| *l == want) {
+            j.inconclusive = Some(format!("harness: expected {want} in the metadata log, got {:?}", r.log));
+            return j;
+        }
+    }
     // acknowledged / failed PUTs per topic in per-client order, GET observations
     struct G {
         sent: u64,
